@@ -3,6 +3,8 @@ Shared by C14 (same call under different schedules) and C15 (same call under dif
 from __future__ import annotations
 
 import json
+import threading
+import warnings
 from random import Random
 
 from vf.lib import h64
@@ -38,13 +40,40 @@ def canon(v, depth=0):
     return repr(v)
 
 
+_TL = threading.local()
+_CAPTURE = {"on": False}
+
+
+def capture_warnings():
+    """Make warnings part of every observed outcome: filter 'always', and a showwarning hook that files each
+    warning under the thread that raised it (warnings.catch_warnings itself is not thread-safe, so it is not
+    used here)."""
+    if _CAPTURE["on"]:
+        return
+    warnings.simplefilter("always")
+
+    def show(message, category, filename, lineno, file=None, line=None):
+        buf = getattr(_TL, "buf", None)
+        if buf is not None:
+            buf.append(getattr(category, "__name__", str(category)))
+
+    warnings.showwarning = show
+    _CAPTURE["on"] = True
+
+
 def execute(S, d: dict, keep: list | None = None):
-    """Returns ('ok', canonical) or ('exc', class name, message)."""
+    """Returns ['ok', canonical] or ['exc', class name, message]; with capture_warnings() on, a third/fourth
+    element lists the categories of the warnings the call emitted."""
+    _TL.buf = [] if _CAPTURE["on"] else None
     try:
         r = _dispatch(S, d, keep)
-        return ["ok", canon(r)]
+        out = ["ok", canon(r)]
     except Exception as e:  # noqa: BLE001
-        return ["exc", type(e).__name__, str(e)[:200]]
+        out = ["exc", type(e).__name__, str(e)[:200]]
+    if _TL.buf:
+        out.append({"warnings": sorted(set(_TL.buf))})
+    _TL.buf = None
+    return out
 
 
 def _dispatch(S, d, keep):
@@ -105,6 +134,13 @@ def _dispatch(S, d, keep):
         from schwifty.checksum import algorithms  # noqa: PLC0415
 
         return algorithms[d["key"]].compute(list(d["components"]))
+    if fn == "iban_country":
+        c = S.IBAN(d["text"], allow_invalid=True).country
+        return None if c is None else getattr(c, "alpha_2", str(c))
+    if fn == "bic_country":
+        o = S.BIC(d["text"], allow_invalid=True)
+        c = o.country
+        return {"country": None if c is None else getattr(c, "alpha_2", str(c)), "is_valid": o.is_valid}
     if fn == "spec":
         return S.IBAN(d["text"], allow_invalid=True).spec
     raise KeyError(fn)
